@@ -72,6 +72,10 @@ func concBuild(seed uint64) *concInputs {
 				m.SysStat = &rwp.SystemStat{CPUUsage: uint32(r.Intn(100)), CPUTemp: float32(r.Intn(900)) / 10}
 			case 4:
 				m.PanelTopology = &rwp.PanelTopology{Svgbase: "<svg>\n<g>\n</g></svg>", Json: "{\n \"a\": 1}"}
+				if r.Intn(2) == 0 { // long single and multi-line payloads
+					m.PanelTopology.Json = "{\"HWc\":[" + strings.Repeat("{\"id\":1,\"x\":10,\"y\":20,\"txt\":\"Button\"},\n", 20+r.Intn(200)) + "{}]}"
+					m.PanelTopology.Svgbase = "<svg>" + strings.Repeat("<rect x=\"1\" y=\"2\"/>", 30+r.Intn(300)) + "</svg>"
+				}
 			}
 			os_ = append(os_, m)
 		}
@@ -198,13 +202,25 @@ func concRun(seed uint64, goroutines, rounds int) string {
 // conc.debug: the same inputs (plus strings that are not valid UTF-8) with DebugRWPhelpers = true, in a child process whose
 // stdout (the debug dump) is discarded; the child must finish within 20 s.
 func concDebugChild(seed uint64) {
+	// results with the dump off first …
+	ci := concBuild(seed)
+	want := map[string]string{}
+	for _, r := range ci.evalAll(0) {
+		want[r[:strings.Index(r, ":")]] = r
+	}
 	helpers.DebugRWPhelpersMU.Lock()
 	helpers.DebugRWPhelpers = true
 	helpers.DebugRWPhelpersMU.Unlock()
-	ci := concBuild(seed)
 	bad := "_model=SK\xffRCP"
 	for round := 0; round < 2; round++ {
-		ci.evalAll(round)
+		// … must be the results with the dump on
+		for _, r := range ci.evalAll(round) {
+			k := r[:strings.Index(r, ":")]
+			if want[k] != r {
+				fmt.Fprintln(os.Stderr, "debug-differs:"+k)
+				os.Exit(3)
+			}
+		}
 		helpers.RawPanelASCIIstringsToOutboundMessages([]string{bad, "_serial=\xfe", "Msg=\xc3"})
 		helpers.RawPanelASCIIstringsToInboundMessages([]string{"HWCt#1=|||\xff", "SetCalibrationProfile=\xff"})
 		helpers.InboundMessagesToRawPanelASCIIstrings([]*rwp.InboundMessage{{States: []*rwp.HWCState{{HWCIDs: []uint32{1}, HWCText: &rwp.HWCText{Title: "\xff\xfe"}}}}})
@@ -227,6 +243,9 @@ func concDebug(seed string) string {
 	select {
 	case err := <-done:
 		if err != nil {
+			if ee, ok := err.(*exec.ExitError); ok && ee.ExitCode() == 3 {
+				return "mismatch:debug-on-differs-from-debug-off"
+			}
 			return "panic:debug-child-" + strings.ReplaceAll(err.Error(), " ", "_")
 		}
 		return "ok"
@@ -280,6 +299,12 @@ func genC06(r *Rng, n int, tier string) {
 			emitHist([]string{kw + "1=0/1," + h + "x" + h + "," + h + "," + h + ":AQ==", kw + "1=1:Ag=="})
 			emitHist([]string{kw + h + "=0/0,8x8:AQ=="})
 		}
+	}
+	// every history of at most three chunk lines over a 13-symbol alphabet (chunk 0 in four header forms, chunks 1-3, a
+	// second target list, a second format, a damaged payload, a non-graphics line): state carried from line to line
+	_, reduced, _ := gfxAlphabets()
+	for l := 1; l <= 3; l++ {
+		enumHist(reduced, l)
 	}
 	// debug dump switched on (child process, its stdout discarded): every converter and the reader must still return
 	for i := 0; i < 2; i++ {
